@@ -126,8 +126,9 @@ type batchRes struct {
 }
 
 type raceReport struct {
-	key  string
-	text string
+	harness bool // both accesses are the harness' own code
+	key     string
+	text    string
 }
 
 func run(a []string) int {
@@ -231,6 +232,7 @@ func run(a []string) int {
 	truncated := false
 	harnessFailure := false
 	raceSeen := map[string]string{}
+	harnessRaces := map[string]bool{}
 	for i, r := range results {
 		b := batches[i]
 		evals += r.out.Evaluations
@@ -285,6 +287,14 @@ func run(a []string) int {
 			}
 		}
 		for _, rr := range r.races {
+			if rr.harness {
+				// reported loudly and counted, never a verdict about gohbase
+				if _, ok := harnessRaces[rr.key]; !ok {
+					harnessRaces[rr.key] = true
+					fmt.Fprintf(os.Stderr, "HARNESS RACE (both accesses in /verif code; not a finding about gohbase):\n%s\n", rr.text)
+				}
+				continue
+			}
 			if _, ok := raceSeen[rr.key]; !ok {
 				raceSeen[rr.key] = rr.text
 				if p.RaceIsViolation {
@@ -295,6 +305,7 @@ func run(a []string) int {
 		}
 	}
 	counters["race_reports_distinct"] = int64(len(raceSeen))
+	counters["harness_race_reports"] = int64(len(harnessRaces))
 
 	// classify violations
 	knownSeen := map[string]*knownFinding{}
@@ -497,9 +508,37 @@ func parseRaces(s string) []raceReport {
 		// key: first gohbase function of each of the two accesses
 		var fns []string
 		secs := regexp.MustCompile(`(?m)^(Read|Write|Previous read|Previous write|Previous atomic|Atomic)[^\n]*\n`).Split(part, -1)
+		// owner of each access: the innermost frame that is neither runtime nor
+		// standard library. When both accesses are the harness' own (a variable of
+		// a workload touched from a hook that runs in one of the client's
+		// goroutines), the race is a defect of the harness, not of gohbase.
+		harnessOnly := len(secs) > 1
 		for _, sec := range secs[1:] {
 			if j := strings.Index(sec, "\n\n"); j >= 0 {
 				sec = sec[:j]
+			}
+			owner := ""
+			for _, ln := range strings.Split(sec, "\n") {
+				f := strings.TrimSpace(ln)
+				if f == "" || strings.HasPrefix(f, "/") || !strings.Contains(f, "(") {
+					continue
+				}
+				first := f
+				if k := strings.IndexAny(first, "/."); k >= 0 {
+					first = first[:k]
+				}
+				if strings.Contains(f, "github.com/tsuna/gohbase") {
+					owner = "gohbase"
+					break
+				}
+				if strings.HasPrefix(f, "verif/") || strings.HasPrefix(f, "main.") {
+					owner = "harness"
+					break
+				}
+				_ = first // standard library / runtime frame: look further out
+			}
+			if owner != "harness" {
+				harnessOnly = false
 			}
 			for _, ln := range strings.Split(sec, "\n") {
 				if m := reFunc.FindStringSubmatch(ln); m != nil {
@@ -513,7 +552,7 @@ func parseRaces(s string) []raceReport {
 		if key == "" {
 			key = "unknown"
 		}
-		out = append(out, raceReport{key: key, text: "WARNING: DATA RACE" + firstLines(part, 60)})
+		out = append(out, raceReport{key: key, text: "WARNING: DATA RACE" + firstLines(part, 60), harness: harnessOnly})
 	}
 	return out
 }
